@@ -2,12 +2,12 @@
    Statements only (proofs in ClientFlowProofs.v), Print Assumptions, non-vacuity Examples.
    Signatures are abstracted to what net/http.rs decides about them: `RReceipt .. sig_ok` (receipt.verify(tower_id)),
    AAccept / AWrongKey / ABadSig (recovers to the tower id / to another id / undecodable). *)
-From TeosModel Require Import Base Db Client ClientFlow ClientFlowProofs.
+From TeosModel Require Import Base Db Client ClientProofs ClientFlow ClientFlowProofs.
 
 (* registertower stores a registration ONLY IF the receipt verifies under the supplied tower id and strictly extends
    the subscription the client holds (expiry in memory, slots of the tower's row: `reg_extends`); then exactly one
    registration receipt row is appended; in every other case the database is unchanged; and a verifying, extending
-   receipt IS stored unless the handler panics (it never does in a state of the invariant: C14_no_reply_aborts). *)
+   receipt IS stored unless the handler panics (it never does in a reachable state: C14_no_reply_aborts). *)
 Theorem C14_registration_gate s t rp :
   (snd (f_register s t t rp) = OOk ->
      exists slots start expiry, rp = RReceipt slots start expiry true /\ reg_extends (f_c s) t slots expiry = true /\ poisoned s = false /\
@@ -19,27 +19,61 @@ Theorem C14_registration_gate s t rp :
 Proof. exact (registration_gate s t rp). Qed.
 Print Assumptions C14_registration_gate.
 
-(* An acknowledgement signed with another key flags the tower (proof row + receipt row stored, status misbehaving) on
-   the notification path and on the retry path, without panicking, when the tower is not flagged yet. *)
+(* An acknowledgement signed with another key flags the tower, on the notification path and on the retry path,
+   without panicking, WHATEVER is already stored for the tower (fix d35e2bc): a proof row is there afterwards (the one
+   already stored is kept), the status is misbehaving; when no proof was stored before, the receipt of the proof is
+   stored too (replacing the tower's own receipt for that locator, if there was one). *)
 Theorem C14_flagged_on_notification s l t st :
   FInv s -> poisoned s = false -> knownc (f_c s) t -> is_reachable st = true ->
-  wt_has_appointment (f_c s) t l = false -> ~ Mrow (c_db (f_c s)) t ->
+  wt_has_appointment (f_c s) t l = false ->
   let s' := fst (rev_tower s l t st AWrongKey) in
   snd (rev_tower s l t st AWrongKey) = None /\ Mrow (c_db (f_c s')) t /\ stat (f_c s') t = Some Misbehaving /\
-  Rrow (c_db (f_c s')) t l /\ In (ReqAdd t l) (f_log s').
+  (~ Mrow (c_db (f_c s)) t -> Rrow (c_db (f_c s')) t l) /\ In (ReqAdd t l) (f_log s') /\ poisoned s' = false.
 Proof. exact (flagged_on_notification s l t st). Qed.
 Print Assumptions C14_flagged_on_notification.
 
 Theorem C14_flagged_on_retry s t l more :
-  FInv s -> poisoned s = false -> knownc (f_c s) t -> In l (retrier_pending s t) -> ~ Mrow (c_db (f_c s)) t ->
+  FInv s -> poisoned s = false -> knownc (f_c s) t ->
   let s' := fst (task_step s t (RunErr (EMisbehaving l)) more) in
   snd (task_step s t (RunErr (EMisbehaving l)) more) = OutFailed (EMisbehaving l) /\
-  Mrow (c_db (f_c s')) t /\ stat (f_c s') t = Some Misbehaving.
+  Mrow (c_db (f_c s')) t /\ stat (f_c s') t = Some Misbehaving /\ poisoned s' = false.
 Proof. exact (flagged_on_retry s t l more). Qed.
 Print Assumptions C14_flagged_on_retry.
 
-(* what does hold of "stops all further sending": while the in-memory status is misbehaving the notification path
-   skips the tower (no request, no state change) and retrytower refuses it *)
+(* the store-level facts behind it (every history, every database of the invariant): flag_misbehaving_tower's store
+   succeeds on a registered tower whatever rows exist, and leaves a proof row of the tower *)
+Theorem C14_flagging_never_fails c t l sb u g rc :
+  Inv c -> c_poisoned c = false -> knownc c t -> snd (wt_flag_misbehaving_tower c t l sb u g rc) = ROk.
+Proof. exact (flag_ok c t l sb u g rc). Qed.
+Print Assumptions C14_flagging_never_fails.
+
+(* "... and stops all further sending to it": FULL statement (fixes 70d4134, 9d6311c, d35e2bc).
+   From every reachable state in which a misbehaviour proof of tower t is stored, NO operation - notification, manager
+   iteration, retry attempt, registertower (which may fail to connect), retrytower, abandontower of another tower,
+   restart - sends an appointment to t ... *)
+Theorem C14_misbehaviour_flagged ops o t :
+  let s := frun f_init ops in
+  exists_misbehaving_proof (c_db (f_c s)) t = true ->
+  exists new, f_log (fst (fstep s o)) = f_log s ++ new /\ existsb (is_add_to t) new = false.
+Proof. exact (misbehaviour_flagged ops o t). Qed.
+Print Assumptions C14_misbehaviour_flagged.
+
+(* ... hence none along any continuation during which the proof stays stored (`flagged_along`; a proof row is deleted
+   only together with its tower, by abandontower: C18_abandon_exact) ... *)
+Theorem C14_misbehaviour_flagged_along ops1 ops2 t :
+  let s1 := frun f_init ops1 in let s2 := frun s1 ops2 in
+  flagged_along t s1 ops2 = true ->
+  existsb (is_add_to t) (skipn (length (f_log s1)) (f_log s2)) = false.
+Proof. exact (misbehaviour_flagged_along ops1 ops2 t). Qed.
+Print Assumptions C14_misbehaviour_flagged_along.
+
+(* ... because the in-memory status cannot leave misbehaving while the proof is stored, in any reachable state *)
+Theorem C14_misbehaving_is_kept ops t :
+  let s := frun f_init ops in poisoned s = false ->
+  exists_misbehaving_proof (c_db (f_c s)) t = true -> knownc (f_c s) t -> stat (f_c s) t = Some Misbehaving.
+Proof. exact (misbehaving_is_kept ops t). Qed.
+Print Assumptions C14_misbehaving_is_kept.
+
 Theorem C14_notification_skips_misbehaving s l t rp :
   rev_tower s l t Misbehaving rp = (s, None) \/ rev_tower s l t Misbehaving rp = (s, Some (SClient Site_poisoned)).
 Proof. exact (rev_tower_skips_misbehaving s l t rp). Qed.
@@ -51,39 +85,32 @@ Theorem C14_retry_refuses_misbehaving s t su :
 Proof. exact (manual_retry_refuses_misbehaving s t su). Qed.
 Print Assumptions C14_retry_refuses_misbehaving.
 
-(* "... and stops all further sending to it": REFUTED.
-   (1) genuine defect replayed on the real plugin: `registertower` against a flagged tower that refuses the connection
-       overwrites the misbehaving status; the next revocation is handed to a retrier which sends it to the tower;
-   (2) model witness inside the guards (no registertower involved): the manager starts a stopped retrier of a tower
-       flagged in the meantime, Retrier::start overwrites the status with temporary unreachable, the retrier sends. *)
-Theorem C14_misbehaviour_flagged_refuted :
-  exists ops1 ops2 t, let s1 := frun f_init ops1 in let s2 := frun s1 ops2 in
-    exists_misbehaving_proof (c_db (f_c s1)) t = true /\
-    existsb (is_add_to t) (skipn (length (f_log s1)) (f_log s2)) = true.
-Proof. exact misbehaviour_flagged_refuted. Qed.
-Print Assumptions C14_misbehaviour_flagged_refuted.
+(* the former counterexamples (registertower against a flagged tower that refuses the connection, further revocations,
+   manager iterations, a retry attempt, then a second wrong-key reply): nothing is sent to the flagged tower, the
+   status stays misbehaving, the second flagging does not abort and keeps the first proof *)
+Example C14_former_counterexample :
+  let s1 := frun f_init (firstn 2 w_c14_ops) in
+  let s2 := frun f_init w_c14_ops in
+  exists_misbehaving_proof (c_db (f_c s1)) 0 = true /\
+  existsb (is_add_to 0) (skipn (length (f_log s1)) (f_log s2)) = false /\
+  stat (f_c s2) 0 = Some Misbehaving /\ poisoned s2 = false /\
+  snd (fstep s2 (FRevocation 2 [] [(0, AWrongKey)])) = OOk /\
+  tbl (c_db (f_c s2)) T_misbehaving_proofs = tbl (c_db (f_c s1)) T_misbehaving_proofs.
+Proof. vm_compute. repeat split. Qed.
 
-Theorem C14_misbehaviour_flagged_refuted_guarded :
-  exists ops1 ops2 t, let s1 := frun f_init ops1 in let s2 := frun s1 ops2 in
-    ops_ok f_init (ops1 ++ ops2) = true /\
-    exists_misbehaving_proof (c_db (f_c s1)) t = true /\
-    existsb (is_add_to t) (skipn (length (f_log s1)) (f_log s2)) = true.
-Proof. exact misbehaviour_flagged_refuted_guarded. Qed.
-Print Assumptions C14_misbehaviour_flagged_refuted_guarded.
-
-(* No reply aborts: in every state of every guarded operation sequence, for every reply class to register and
-   add_appointment, on the notification path and in a retry attempt: no panic site is reached, the model's loop fuel is
-   never exhausted, and a finished retry task leaves no Running retrier — EXCEPT the acknowledgement signed with
-   another key from a tower whose proof is already stored (duplicate proof: flag_misbehaving_tower panics). *)
+(* No reply aborts: FULL statement (no guard, no exception).  In every state of EVERY operation sequence, for every
+   reply class to register and add_appointment, on the notification path and in a retry attempt: no panic site is
+   reached, the model's loop fuel is never exhausted, a finished retry task leaves no Running retrier; and the retry
+   manager never panics (Retrier::start has no panic site left: fixes 29264ec, 9d6311c; Retrier::run: 8108569). *)
 Theorem C14_no_reply_aborts ops :
-  ops_fresh f_init ops = true -> let s := frun f_init ops in poisoned s = false ->
+  let s := frun f_init ops in poisoned s = false ->
   (forall t rp site, snd (fstep s (FRegister t rp)) <> OPanic site) /\
-  (forall l order replies, snd (fstep s (FRevocation l order replies)) = OOk \/
-       exists t, reply_for replies t = AWrongKey /\ snd (fstep s (FRevocation l order replies)) = OPanic PROOF_SITE) /\
+  (forall l order replies, snd (fstep s (FRevocation l order replies)) = OOk) /\
+  (forall elapsed site, snd (fstep s (FManagerTick elapsed)) <> OPanic site) /\
   (forall t a, In t (f_tasks s) ->
      let s1 := fst (run_attempt s t a) in let r := snd (run_attempt s t a) in
      (match r with RunAbort _ | RunFuel => False | _ => True end) /\
-     (forall site, snd (task_step s1 t r (at_more a)) = OutAbort site -> site = PROOF_SITE /\ Mrow (c_db (f_c s1)) t) /\
+     (forall site, snd (task_step s1 t r (at_more a)) <> OutAbort site) /\
      (match snd (task_step s1 t r (at_more a)) with
       | OutDelivered | OutIdle _ | OutFailed _ =>
         rstat (fst (task_step s1 t r (at_more a))) t <> Some RRunning /\ ~ In t (f_tasks (fst (task_step s1 t r (at_more a))))
@@ -91,15 +118,22 @@ Theorem C14_no_reply_aborts ops :
 Proof. exact (no_reply_aborts ops). Qed.
 Print Assumptions C14_no_reply_aborts.
 
-(* the exception is real (genuine defect, replayed on the real plugin): the full statement is REFUTED *)
-Theorem C14_no_reply_aborts_refuted :
-  exists ops l, snd (fstep (frun f_init ops) (FRevocation l [] [(0, AWrongKey)])) = OPanic (SClient Site_store_misbehaving_proof_unwrap).
-Proof. exact no_reply_aborts_refuted. Qed.
-Print Assumptions C14_no_reply_aborts_refuted.
-
 (* non-vacuity: a renewal that extends is stored, one that does not (same expiry / no more slots) is not *)
 Example C14_gate_example :
   let s := frun f_init [FRegister 0 (w_good 1)] in
   snd (f_register s 0 0 (w_good 2)) = OOk /\ snd (f_register s 0 0 (w_good 1)) = OErr E_expiry /\
   snd (f_register s 0 0 (RReceipt 110 10 1300 true)) = OErr E_slots /\ snd (f_register s 0 0 (RReceipt 200 10 1300 false)) = OErr E_bad_signature.
+Proof. vm_compute. repeat split. Qed.
+
+(* non-vacuity of the three branches of the repaired flagging: no record yet / the tower's own receipt is stored for the
+   locator (used to abort: F9 proof variant) / a proof is already stored (used to abort: duplicate proof) *)
+Example C14_flagging_branches :
+  let c0 := srun wt_new [SRegister 1 11 100 5 200 901] in
+  let c1 := srun wt_new [SRegister 1 11 100 5 200 901; SReceipt 1 7 99 6 301 401] in
+  let f c l := sstep c (SMisbehaving 1 l 6 302 402 77) in
+  snd (f c0 7) = ROk /\ tbl (c_db (fst (f c0 7))) T_misbehaving_proofs = [[1; 7; 77]]%N /\
+  snd (f c1 7) = ROk /\ tbl (c_db (fst (f c1 7))) T_misbehaving_proofs = [[1; 7; 77]]%N /\
+  tbl (c_db (fst (f c1 7))) T_appointment_receipts = [[7; 1; 6; 302; 402]]%N /\
+  snd (f (fst (f c1 7)) 8) = ROk /\ tbl (c_db (fst (f (fst (f c1 7)) 8))) T_misbehaving_proofs = [[1; 7; 77]]%N /\
+  c_poisoned (fst (f (fst (f c1 7)) 8)) = false.
 Proof. vm_compute. repeat split. Qed.
